@@ -484,6 +484,7 @@ var interestingStrings = []string{
 	"0x1p-2", "0x10", "0X1P3", "true", "T", "t", "TRUE", "True", "1", "0", "false", "F", "yes", "", "18446744073709551616", "18446744073709551615",
 	"9223372036854775808", "-5", "3.7", "1e3", "1E5", ".5", "5.", ".", "1e", "1.0", "2.4e-324", "2.5e-324", "+nan", "0.1", "00012", "1.5.2", "12abc",
 	"hello world", "Wohnzimmer Lampe", "AQIDBA==", "日本語", "١٢", "[1 2]", "map[a:1]", "<nil>", "a b\tc", "%v", "\u0000",
+	"e\u0301A\u030a\u212b\u1100\u1161",
 }
 
 func numberNear(r *rand.Rand, cc *charCase) (float64, bool) {
